@@ -1,4 +1,1177 @@
+//! C18 — Anti-entropy: equal digests iff equal states; a sync leaves both sides merged, in
+//! finitely many rounds.
+//!
+//! A case is one consistent *world* (three writer replicas over 20 keys: strings, tombstones,
+//! hashes, expiries, G-counters, OR-sets, writer-to-writer gossip) whose emitted deltas are
+//! delivered — in two different orders, with optional extra deliveries — to two follower
+//! replicas A and B (`ShardReplicaState::apply_remote_delta`). A and B are then
+//!
+//!   digest_pairs  compared through `AntiEntropyManager::generate_digest` /
+//!                 `StateDigest::{differs_from, divergent_buckets}` on several *independently
+//!                 built* `HashMap`s per side (different insertion orders, capacities, churn),
+//!                 `merkle_tree_depth` in {0,1,2,4,8};
+//!   sync_direct   synchronised by driving `process_peer_digest / create_sync_request /
+//!                 handle_sync_request / get_keys_in_buckets` by hand, `max_keys_per_sync` in
+//!                 {1,2,5,1000}, for ceil(keys/limit)+2 rounds;
+//!   sync_sim      the same through `MultiNodeSimulation::run_anti_entropy_sync`.
+//!
+//! Everything the harness decides is independent of `HashMap` iteration order: verdicts are
+//! computed from sorted `KeyDigest` lists per bucket ("ideal" divergence) and from canonical
+//! projections; the API's own answers are then compared with those.
+
+use proptest::prelude::*;
+use redis_sim::redis::SDS;
+use redis_sim::replication::anti_entropy::{
+    AntiEntropyConfig, AntiEntropyManager, KeyDigest, StateDigest,
+};
+use redis_sim::replication::lattice::ReplicaId;
+use redis_sim::replication::state::{
+    CrdtValue, ReplicatedValue, ReplicationDelta, ShardReplicaState,
+};
+use redis_sim::replication::ConsistencyLevel;
+use redis_sim::simulator::multi_node::MultiNodeSimulation;
+use serde::{Deserialize, Serialize};
+use serde_json::{json, Value as J};
+use std::collections::{BTreeMap, BTreeSet, HashMap};
+use vcore::proj::{client_view, diff_components, peer_view};
+use vcore::{CaseCtx, Level, Session};
+
+const KF_FOLD: &str = "KF-C18-01";
+const KF_BLIND: &str = "KF-C18-02";
+const KF_STUCK: &str = "KF-C18-03";
+const KF_STAMP: &str = "KF-C07-01";
+const KF_MISMATCH: &str = "KF-C07-02";
+
+const NKEYS: u8 = 20;
+const PAYLOADS: [&str; 4] = ["x", "y", "", "a-longer-payload-of-31-bytes...."];
+const FIELDS: [&str; 3] = ["f", "g", "h"];
+const EXPIRY: [Option<u64>; 3] = [None, Some(100), Some(200)];
+const DEPTHS: [usize; 5] = [0, 1, 2, 4, 8];
+const LIMITS: [usize; 4] = [1, 2, 5, 1000];
+
+type Map = HashMap<String, ReplicatedValue>;
+
+fn key_name(k: u8) -> String {
+    let k = k % NKEYS;
+    match k {
+        0..=13 => format!("k{}", k),
+        14..=16 => format!("cnt{}", k),
+        _ => format!("set{}", k),
+    }
+}
+
+// ---------------------------------------------------------------------------------------
+// world
+// ---------------------------------------------------------------------------------------
+
+#[derive(Clone, Debug, Serialize, Deserialize)]
+enum WOp {
+    Write { w: u8, key: u8, p: u8, exp: u8 },
+    Delete { w: u8, key: u8 },
+    HSet { w: u8, key: u8, f: u8, p: u8 },
+    HDel { w: u8, key: u8, f: u8 },
+    /// keys 14..=16: GCounter increment, keys 17..=19: ORSet add/remove (act 2 = remove)
+    Crdt { w: u8, key: u8, act: u8, stamp: bool },
+    /// writer-to-writer gossip of `from`'s current value
+    Gossip { to: u8, from: u8, key: u8 },
+}
+
+struct Snap {
+    key: String,
+    holder: u8,
+    value: ReplicatedValue,
+}
+
+fn run_world(ops: &[WOp]) -> Vec<Snap> {
+    let mut ws: Vec<ShardReplicaState> = (0..3)
+        .map(|i| ShardReplicaState::new(ReplicaId::new(i + 1), ConsistencyLevel::Eventual))
+        .collect();
+    let mut snaps = Vec::new();
+    for op in ops {
+        let touched: Option<(usize, String)> = match op {
+            WOp::Write { w, key, p, exp } => {
+                let (w, k) = (*w as usize % 3, key_name(*key % 14));
+                ws[w].record_write(
+                    k.clone(),
+                    SDS::from_str(PAYLOADS[*p as usize % 4]),
+                    EXPIRY[*exp as usize % 3],
+                );
+                Some((w, k))
+            }
+            WOp::Delete { w, key } => {
+                let (w, k) = (*w as usize % 3, key_name(*key % 14));
+                ws[w].record_delete(k.clone());
+                Some((w, k))
+            }
+            WOp::HSet { w, key, f, p } => {
+                let (w, k) = (*w as usize % 3, key_name(*key % 14));
+                ws[w].record_hash_write(
+                    k.clone(),
+                    vec![(
+                        FIELDS[*f as usize % 3].to_string(),
+                        SDS::from_str(PAYLOADS[*p as usize % 4]),
+                    )],
+                );
+                Some((w, k))
+            }
+            WOp::HDel { w, key, f } => {
+                let (w, k) = (*w as usize % 3, key_name(*key % 14));
+                ws[w].record_hash_delete(k.clone(), vec![FIELDS[*f as usize % 3].to_string()]);
+                Some((w, k))
+            }
+            WOp::Crdt { w, key, act, stamp } => {
+                let w = *w as usize % 3;
+                let kk = 14 + *key % 6;
+                let k = key_name(kk);
+                let rid = ws[w].replica_id;
+                let mut rv = ws[w].replicated_keys.remove(&k).unwrap_or_else(|| {
+                    ReplicatedValue::with_crdt(
+                        if kk <= 16 {
+                            CrdtValue::new_gcounter()
+                        } else {
+                            CrdtValue::new_orset()
+                        },
+                        rid,
+                    )
+                });
+                match rv.crdt_mut() {
+                    CrdtValue::GCounter(g) => g.increment(rid),
+                    CrdtValue::ORSet(s) => {
+                        let e = format!("e{}", act % 2);
+                        if *act % 3 == 2 {
+                            s.remove(&e);
+                        } else {
+                            s.add(e, rid);
+                        }
+                    }
+                    _ => {}
+                }
+                if *stamp {
+                    rv.timestamp = ws[w].lamport_clock.tick();
+                }
+                ws[w].replicated_keys.insert(k.clone(), rv);
+                Some((w, k))
+            }
+            WOp::Gossip { to, from, key } => {
+                let (to, from, k) = (*to as usize % 3, *from as usize % 3, key_name(*key));
+                if to == from {
+                    None
+                } else if let Some(v) = ws[from].replicated_keys.get(&k).cloned() {
+                    let src = ws[from].replica_id;
+                    ws[to].apply_remote_delta(ReplicationDelta::new(k.clone(), v, src));
+                    Some((to, k))
+                } else {
+                    None
+                }
+            }
+        };
+        if let Some((w, k)) = touched {
+            if let Some(v) = ws[w].replicated_keys.get(&k) {
+                snaps.push(Snap {
+                    key: k,
+                    holder: w as u8,
+                    value: v.clone(),
+                });
+            }
+        }
+    }
+    snaps
+}
+
+#[derive(Clone, Debug, Serialize, Deserialize)]
+struct Case {
+    world: Vec<WOp>,
+    /// deliveries both followers receive (indices into the world's snapshots, monotone)
+    base: Vec<u16>,
+    /// sort keys: B receives `base` in the order given by (perm[i], i)
+    perm: Vec<u16>,
+    /// deliveries only A / only B receive (after the common ones)
+    extra_a: Vec<u16>,
+    extra_b: Vec<u16>,
+    /// index into DEPTHS / LIMITS
+    depth: u8,
+    limit: u8,
+}
+
+struct Built {
+    a: ShardReplicaState,
+    b: ShardReplicaState,
+    /// per key: kinds (crdt type names) of every snapshot delivered to either side
+    kinds: BTreeMap<String, BTreeSet<&'static str>>,
+    permuted: bool,
+}
+
+fn follower(id: u64) -> ShardReplicaState {
+    ShardReplicaState::new(ReplicaId::new(id), ConsistencyLevel::Eventual)
+}
+
+fn build(case: &Case) -> Built {
+    let snaps = run_world(&case.world);
+    let mut a = follower(10);
+    let mut b = follower(11);
+    let mut kinds: BTreeMap<String, BTreeSet<&'static str>> = BTreeMap::new();
+    let mut permuted = false;
+    if !snaps.is_empty() {
+        let n = snaps.len();
+        let at = |i: u16| &snaps[(i as usize * n) >> 16];
+        let mut deliver = |st: &mut ShardReplicaState, s: &Snap| {
+            kinds
+                .entry(s.key.clone())
+                .or_default()
+                .insert(s.value.crdt.type_name());
+            st.apply_remote_delta(ReplicationDelta::new(
+                s.key.clone(),
+                s.value.clone(),
+                ReplicaId::new(s.holder as u64 + 1),
+            ));
+        };
+        for i in &case.base {
+            deliver(&mut a, at(*i));
+        }
+        let mut order: Vec<usize> = (0..case.base.len()).collect();
+        order.sort_by_key(|i| (case.perm.get(*i).copied().unwrap_or(0), *i));
+        permuted = order.iter().enumerate().any(|(p, i)| p != *i);
+        for i in order {
+            deliver(&mut b, at(case.base[i]));
+        }
+        for i in &case.extra_a {
+            deliver(&mut a, at(*i));
+        }
+        for i in &case.extra_b {
+            deliver(&mut b, at(*i));
+        }
+    }
+    Built {
+        a,
+        b,
+        kinds,
+        permuted,
+    }
+}
+
+// ---------------------------------------------------------------------------------------
+// projections and order-independent digest analysis
+// ---------------------------------------------------------------------------------------
+
+/// What a client can see: body, and the expiry only if there is a body.
+fn cv(v: Option<&ReplicatedValue>) -> J {
+    match v {
+        None => json!({"type": "none"}),
+        Some(v) => {
+            let c = client_view(v);
+            if c["body"]["type"] == "none" {
+                json!({"type": "none"})
+            } else {
+                c
+            }
+        }
+    }
+}
+
+fn pv(v: Option<&ReplicatedValue>) -> J {
+    v.map(peer_view).unwrap_or(J::Null)
+}
+
+fn bucket_of(key: &str, v: &ReplicatedValue, depth: usize) -> usize {
+    KeyDigest::new(key, v).bucket(depth)
+}
+
+/// Sorted key digests per bucket — what an order-independent digest would be built from.
+fn ideal(map: &Map, depth: usize) -> Vec<Vec<(u64, u64, u64)>> {
+    let mut v = vec![Vec::new(); 1 << depth];
+    for (k, val) in map {
+        let d = KeyDigest::new(k, val);
+        v[d.bucket(depth)].push((d.key_hash, d.value_hash, d.timestamp));
+    }
+    for b in &mut v {
+        b.sort();
+    }
+    v
+}
+
+/// Independent maps with the same content: different insertion orders, capacities and churn
+/// (each `HashMap::new()` also draws a fresh `RandomState`).
+fn copies(map: &Map, n: usize) -> Vec<Map> {
+    let mut keys: Vec<&String> = map.keys().collect();
+    keys.sort();
+    let len = keys.len();
+    (0..n)
+        .map(|i| {
+            let mut order = keys.clone();
+            if len > 0 {
+                order.rotate_left((i * 7 + i / 2) % len);
+            }
+            if i % 2 == 1 {
+                order.reverse();
+            }
+            if i % 5 == 4 && len > 2 {
+                order.swap(0, len / 2);
+            }
+            let cap = [0, len, 2 * len + 3, 64, 1024][i % 5];
+            let mut m: Map = HashMap::with_capacity(cap);
+            if i % 3 == 2 {
+                for d in 0..11 {
+                    m.insert(format!("~dummy{}", d), ReplicatedValue::new(ReplicaId::new(99)));
+                }
+            }
+            for k in order {
+                m.insert(k.clone(), map[k].clone());
+            }
+            if i % 3 == 2 {
+                for d in 0..11 {
+                    m.remove(&format!("~dummy{}", d));
+                }
+            }
+            m
+        })
+        .collect()
+}
+
+fn digest_of(map: &Map, rid: u64, depth: usize) -> StateDigest {
+    let mgr = AntiEntropyManager::new(
+        ReplicaId::new(rid),
+        AntiEntropyConfig {
+            merkle_tree_depth: depth,
+            ..AntiEntropyConfig::default()
+        },
+    );
+    mgr.generate_digest(map)
+}
+
+/// Counts a tolerated finding once per case.
+#[derive(Default)]
+struct Tol {
+    seen: BTreeSet<&'static str>,
+}
+
+impl Tol {
+    fn tolerate(&mut self, ctx: &mut CaseCtx<'_>, id: &'static str) -> bool {
+        if self.seen.contains(id) {
+            return true;
+        }
+        let t = ctx.tolerate(id);
+        if t {
+            self.seen.insert(id);
+        }
+        t
+    }
+}
+
+/// Digests of two maps with EQUAL content (equal peer view for every key) must be equal.
+/// Buckets holding >= 2 keys are exposed to KF-C18-01 (fold in map iteration order): while that
+/// finding is open only `count` and `max_timestamp` are compared there.
+fn check_equal_content_digests(
+    what: &str,
+    content: &Map,
+    da: &StateDigest,
+    db: &StateDigest,
+    depth: usize,
+    ctx: &mut CaseCtx<'_>,
+    tol: &mut Tol,
+) -> Result<(), String> {
+    let id = ideal(content, depth);
+    let mut any_multi = false;
+    for (i, keys) in id.iter().enumerate() {
+        let (na, nb) = (&da.buckets[i], &db.buckets[i]);
+        if keys.len() >= 2 {
+            any_multi = true;
+            if na != nb {
+                if na.count == nb.count
+                    && na.max_timestamp == nb.max_timestamp
+                    && tol.tolerate(ctx, KF_FOLD)
+                {
+                    continue;
+                }
+                return Err(format!(
+                    "{}: two maps with equal content give different digests for bucket {} ({} keys, depth {}): {:?} vs {:?}",
+                    what, i, keys.len(), depth, na, nb
+                ));
+            }
+        } else if na != nb {
+            return Err(format!(
+                "{}: two maps with equal content give different digests for bucket {} holding {} key(s) (depth {}): {:?} vs {:?}",
+                what, i, keys.len(), depth, na, nb
+            ));
+        }
+    }
+    let div = da.divergent_buckets(db);
+    for i in &div {
+        if id[*i].len() < 2 || !tol.tolerate(ctx, KF_FOLD) {
+            return Err(format!(
+                "{}: divergent_buckets reports bucket {} ({} keys) although both maps have equal content (depth {})",
+                what, i, id[*i].len(), depth
+            ));
+        }
+    }
+    if da.differs_from(db) && !(any_multi && tol.tolerate(ctx, KF_FOLD)) {
+        return Err(format!(
+            "{}: differs_from is true for two maps with equal content (no bucket holds more than one key; depth {})",
+            what, depth
+        ));
+    }
+    if da.key_count != db.key_count || da.max_timestamp != db.max_timestamp {
+        return Err(format!(
+            "{}: key_count/max_timestamp differ for equal content: {}/{} vs {}/{}",
+            what, da.key_count, da.max_timestamp, db.key_count, db.max_timestamp
+        ));
+    }
+    Ok(())
+}
+
+/// The digest defect signature of KF-C18-02: the two values hash to the same KeyDigest because
+/// everything KeyDigest::new reads (outer stamp, LWW bytes via get()) is equal.
+fn blind_signature(key: &str, a: &ReplicatedValue, b: &ReplicatedValue) -> bool {
+    KeyDigest::new(key, a) == KeyDigest::new(key, b)
+        && a.timestamp == b.timestamp
+        && a.get().map(|s| s.as_bytes().to_vec()) == b.get().map(|s| s.as_bytes().to_vec())
+}
+
+struct PairAnalysis {
+    /// buckets whose sorted key-digest lists differ
+    ideal_div: BTreeSet<usize>,
+    all_peer_equal: bool,
+}
+
+/// Compare the digests of A and B (several independent maps each) with the states themselves.
+fn check_digest_pair(
+    a: &Map,
+    b: &Map,
+    depth: usize,
+    ncopies: usize,
+    ctx: &mut CaseCtx<'_>,
+    tol: &mut Tol,
+) -> Result<PairAnalysis, String> {
+    let nb = 1usize << depth;
+    let (ia, ib) = (ideal(a, depth), ideal(b, depth));
+    let ideal_div: BTreeSet<usize> = (0..nb).filter(|i| ia[*i] != ib[*i]).collect();
+
+    // per key classification
+    let keys: BTreeSet<&String> = a.keys().chain(b.keys()).collect();
+    let mut all_peer_equal = true;
+    let mut client_diff_buckets: BTreeSet<usize> = BTreeSet::new();
+    for k in &keys {
+        let (va, vb) = (a.get(*k), b.get(*k));
+        if pv(va) == pv(vb) {
+            continue;
+        }
+        all_peer_equal = false;
+        if cv(va) == cv(vb) {
+            // peer-level difference only (stamps, tombstone vs absent, vector clock, …): the
+            // design asserts nothing here
+            ctx.abstain();
+            ctx.label("peer_only_difference");
+            continue;
+        }
+        ctx.label("client_visible_difference");
+        match (va, vb) {
+            (Some(x), Some(y)) => {
+                let bx = bucket_of(k, x, depth);
+                if KeyDigest::new(k, x) == KeyDigest::new(k, y) {
+                    // a false "in sync" for this key: confirm through the API on single-key
+                    // maps (no iteration-order effect) and match the signature
+                    let mut m1: Map = HashMap::new();
+                    m1.insert((*k).clone(), x.clone());
+                    let mut m2: Map = HashMap::new();
+                    m2.insert((*k).clone(), y.clone());
+                    let (d1, d2) = (digest_of(&m1, 10, depth), digest_of(&m2, 11, depth));
+                    let api_in_sync = !d1.differs_from(&d2) && d1.divergent_buckets(&d2).is_empty();
+                    if api_in_sync && blind_signature(k, x, y) && tol.tolerate(ctx, KF_BLIND) {
+                        ctx.label("digest_blind_difference");
+                        if client_view(x)["body"] == client_view(y)["body"] {
+                            ctx.label("digest_blind:expiry_only");
+                        } else {
+                            ctx.label(&format!("digest_blind:{}", x.crdt.type_name()));
+                        }
+                        continue;
+                    }
+                    return Err(format!(
+                        "false 'in sync': key {:?} differs for a client but both values have the same key digest (single-key maps: differs_from = {}):\n  A: {}\n  B: {}",
+                        k, !api_in_sync, peer_view(x), peer_view(y)
+                    ));
+                }
+                client_diff_buckets.insert(bx);
+            }
+            (Some(x), None) | (None, Some(x)) => {
+                client_diff_buckets.insert(bucket_of(k, x, depth));
+            }
+            (None, None) => {}
+        }
+    }
+    for bkt in &client_diff_buckets {
+        if !ideal_div.contains(bkt) {
+            return Err(format!(
+                "internal: bucket {} holds a client-visible difference with different key digests but equal sorted digest lists",
+                bkt
+            ));
+        }
+    }
+
+    // the API's answers on independently built maps
+    let ca = copies(a, ncopies);
+    let cb = copies(b, ncopies);
+    let da: Vec<StateDigest> = ca.iter().map(|m| digest_of(m, 10, depth)).collect();
+    let db: Vec<StateDigest> = cb.iter().map(|m| digest_of(m, 11, depth)).collect();
+    ctx.add_evaluations((2 * ncopies) as u64);
+
+    // (1) same side, different maps: equal content
+    for i in 1..ncopies {
+        check_equal_content_digests("A vs an independently built copy of A", a, &da[0], &da[i], depth, ctx, tol)?;
+        check_equal_content_digests("B vs an independently built copy of B", b, &db[0], &db[i], depth, ctx, tol)?;
+    }
+
+    // (2) A vs B
+    let multi = |i: usize| ia[i].len() >= 2 || ib[i].len() >= 2;
+    for i in 0..ncopies {
+        let (x, y) = (&da[i], &db[(i + 1) % ncopies]);
+        if all_peer_equal {
+            check_equal_content_digests("A vs B (equal states)", a, x, y, depth, ctx, tol)?;
+            continue;
+        }
+        let div: BTreeSet<usize> = x.divergent_buckets(y).into_iter().collect();
+        for bkt in 0..nb {
+            let differs = x.buckets[bkt] != y.buckets[bkt];
+            if ideal_div.contains(&bkt) {
+                if !differs || !div.contains(&bkt) {
+                    return Err(format!(
+                        "false 'in sync': bucket {} (depth {}) holds different key digests on the two sides (A {:?} / B {:?}) but its merkle nodes are equal ({:?}) / divergent_buckets = {:?}",
+                        bkt, depth, ia[bkt], ib[bkt], x.buckets[bkt], div
+                    ));
+                }
+            } else if differs || div.contains(&bkt) {
+                // same key digests on both sides: only the fold order can tell them apart
+                if multi(bkt)
+                    && x.buckets[bkt].count == y.buckets[bkt].count
+                    && x.buckets[bkt].max_timestamp == y.buckets[bkt].max_timestamp
+                    && tol.tolerate(ctx, KF_FOLD)
+                {
+                    continue;
+                }
+                return Err(format!(
+                    "false 'divergent': bucket {} (depth {}) holds the same key digests on both sides ({} keys) but is reported different: {:?} vs {:?}",
+                    bkt, depth, ia[bkt].len(), x.buckets[bkt], y.buckets[bkt]
+                ));
+            }
+        }
+        if !ideal_div.is_empty() && !x.differs_from(y) {
+            return Err(format!(
+                "false 'in sync': differs_from is false although buckets {:?} hold different key digests (depth {})",
+                ideal_div, depth
+            ));
+        }
+        if ideal_div.is_empty() && x.differs_from(y) {
+            let any_multi = (0..nb).any(multi);
+            if !(any_multi && tol.tolerate(ctx, KF_FOLD)) {
+                return Err(format!(
+                    "false 'divergent': differs_from is true although every bucket holds the same key digests on both sides (depth {})",
+                    depth
+                ));
+            }
+        }
+    }
+    Ok(PairAnalysis {
+        ideal_div,
+        all_peer_equal,
+    })
+}
+
+/// Same deliveries in a different order must give the same state (this is C07 at the level of
+/// whole replicas; its two listed findings are recognised by their signatures).
+fn check_order_independence(
+    built: &Built,
+    ctx: &mut CaseCtx<'_>,
+    tol: &mut Tol,
+) -> Result<(), String> {
+    let (a, b) = (&built.a.replicated_keys, &built.b.replicated_keys);
+    let keys: BTreeSet<&String> = a.keys().chain(b.keys()).collect();
+    for k in keys {
+        match (a.get(k), b.get(k)) {
+            (Some(x), Some(y)) => {
+                for comp in diff_components(x, y) {
+                    let ok = match comp {
+                        "timestamp" => {
+                            x.timestamp.time == y.timestamp.time
+                                && x.timestamp.replica_id != y.timestamp.replica_id
+                                && tol.tolerate(ctx, KF_STAMP)
+                        }
+                        "crdt" => {
+                            built.kinds.get(k).map(|s| s.len() > 1).unwrap_or(false)
+                                && tol.tolerate(ctx, KF_MISMATCH)
+                        }
+                        _ => false,
+                    };
+                    if !ok {
+                        return Err(format!(
+                            "the same deltas applied in two orders give different values for key {:?} in component '{}':\n  A: {}\n  B: {}",
+                            k, comp, peer_view(x), peer_view(y)
+                        ));
+                    }
+                    ctx.label(&format!("order_dependent:{}", comp));
+                }
+            }
+            (x, y) => {
+                return Err(format!(
+                    "the same deltas applied in two orders: key {:?} present on one side only (A {}, B {})",
+                    k, x.is_some(), y.is_some()
+                ))
+            }
+        }
+    }
+    Ok(())
+}
+
+fn check_digest_case(case: &Case, ctx: &mut CaseCtx<'_>) -> Result<(), String> {
+    let built = build(case);
+    let depth = DEPTHS[case.depth as usize % DEPTHS.len()];
+    let mut tol = Tol::default();
+    ctx.label(&format!("depth:{}", depth));
+    let same_deliveries = case.extra_a.is_empty() && case.extra_b.is_empty();
+    if same_deliveries {
+        ctx.label("same_deliveries_two_orders");
+        check_order_independence(&built, ctx, &mut tol)?;
+    } else if case.extra_a.len() + case.extra_b.len() == 1 {
+        ctx.label("one_extra_delivery");
+    } else {
+        ctx.label("independent_states");
+    }
+    let (a, b) = (&built.a.replicated_keys, &built.b.replicated_keys);
+    let an = check_digest_pair(a, b, depth, 6, ctx, &mut tol)?;
+    if an.all_peer_equal {
+        ctx.label("equal_states");
+    } else if an.ideal_div.is_empty() {
+        ctx.label("unequal_states_equal_key_digests");
+    } else {
+        ctx.label("unequal_states");
+    }
+    let shared = ideal(a, depth).iter().any(|v| v.len() >= 2)
+        || ideal(b, depth).iter().any(|v| v.len() >= 2);
+    if shared {
+        ctx.label("keys_share_a_bucket");
+    }
+    if shared || (built.permuted && !a.is_empty()) {
+        ctx.nontrivial(&(depth, state_fp(a), state_fp(b)));
+    }
+    Ok(())
+}
+
+fn state_fp(m: &Map) -> String {
+    let mut v: Vec<(String, String)> = m
+        .iter()
+        .map(|(k, v)| (k.clone(), peer_view(v).to_string()))
+        .collect();
+    v.sort();
+    format!("{:?}", v)
+}
+
+// ---------------------------------------------------------------------------------------
+// sync
+// ---------------------------------------------------------------------------------------
+
+struct Plan {
+    /// keys of the buckets that are divergent by their key digests (initially)
+    k0: BTreeSet<String>,
+    rounds: usize,
+    /// a side holds more keys in possibly-divergent buckets than one round may carry
+    over_limit: bool,
+}
+
+fn plan(a: &Map, b: &Map, depth: usize, limit: usize, fold_open: bool) -> Plan {
+    let (ia, ib) = (ideal(a, depth), ideal(b, depth));
+    let nb = 1usize << depth;
+    let ideal_div: BTreeSet<usize> = (0..nb).filter(|i| ia[*i] != ib[*i]).collect();
+    // buckets the implementation may report divergent: the really divergent ones and, while the
+    // fold-order finding is open, every bucket with >= 2 keys on a side
+    let possibly: BTreeSet<usize> = (0..nb)
+        .filter(|i| {
+            ideal_div.contains(i) || (fold_open && (ia[*i].len() >= 2 || ib[*i].len() >= 2))
+        })
+        .collect();
+    let count = |id: &Vec<Vec<(u64, u64, u64)>>| possibly.iter().map(|i| id[*i].len()).sum::<usize>();
+    let (na, nbk) = (count(&ia), count(&ib));
+    let n = na.max(nbk);
+    let mut k0 = BTreeSet::new();
+    for (m, _) in [(a, 0), (b, 1)] {
+        for (k, v) in m {
+            if ideal_div.contains(&bucket_of(k, v, depth)) {
+                k0.insert(k.clone());
+            }
+        }
+    }
+    Plan {
+        k0,
+        rounds: (n + limit - 1) / limit + 2,
+        over_limit: na > limit || nbk > limit,
+    }
+}
+
+fn merge_opt(x: Option<&ReplicatedValue>, y: Option<&ReplicatedValue>) -> Option<ReplicatedValue> {
+    match (x, y) {
+        (Some(x), Some(y)) => Some(x.merge(y)),
+        (Some(x), None) => Some(x.clone()),
+        (None, Some(y)) => Some(y.clone()),
+        (None, None) => None,
+    }
+}
+
+/// `got` must be `want` (the merge of the two prior values), up to the listed C07 findings.
+fn same_up_to_c07(
+    got: &ReplicatedValue,
+    want: &ReplicatedValue,
+    mixed_kinds: bool,
+    ctx: &mut CaseCtx<'_>,
+    tol: &mut Tol,
+) -> Option<&'static str> {
+    for comp in diff_components(got, want) {
+        let ok = match comp {
+            "timestamp" => {
+                got.timestamp.time == want.timestamp.time
+                    && got.timestamp.replica_id != want.timestamp.replica_id
+                    && tol.tolerate(ctx, KF_STAMP)
+            }
+            "crdt" => mixed_kinds && tol.tolerate(ctx, KF_MISMATCH),
+            _ => false,
+        };
+        if !ok {
+            return Some(comp);
+        }
+    }
+    None
+}
+
+/// After the sync rounds: safety for every key, and (if `liveness`) convergence of every key of
+/// the initially divergent buckets to the merge of the two prior values.
+#[allow(clippy::too_many_arguments)]
+fn check_after_sync(
+    how: &str,
+    a0: &Map,
+    b0: &Map,
+    a: &Map,
+    b: &Map,
+    p: &Plan,
+    liveness: bool,
+    depth: usize,
+    limit: usize,
+    ctx: &mut CaseCtx<'_>,
+    tol: &mut Tol,
+) -> Result<(), String> {
+    let keys: BTreeSet<&String> = a0.keys().chain(b0.keys()).chain(a.keys()).chain(b.keys()).collect();
+    let mut all_equal = true;
+    for k in keys {
+        let (x0, y0) = (a0.get(k), b0.get(k));
+        let mixed = match (x0, y0) {
+            (Some(x), Some(y)) => x.crdt.type_name() != y.crdt.type_name(),
+            _ => false,
+        };
+        let want_a = merge_opt(x0, y0);
+        let want_b = merge_opt(y0, x0);
+        for (side, now, prior, want) in [("A", a.get(k), x0, &want_a), ("B", b.get(k), y0, &want_b)] {
+            // safety: a replica holds its prior value or the merge of the two prior values
+            let is_prior = pv(now) == pv(prior);
+            let is_merge = pv(now) == pv(want.as_ref())
+                || (!is_prior
+                    && match (now, want) {
+                        (Some(n), Some(w)) => same_up_to_c07(n, w, mixed, ctx, tol).is_none(),
+                        _ => false,
+                    });
+            if !is_prior && !is_merge {
+                return Err(format!(
+                    "{}: after sync replica {} holds for key {:?} neither its prior value nor the merge of the two prior values:\n  now:   {}\n  prior: {}\n  merge: {}",
+                    how, side, k, pv(now), pv(prior), pv(want.as_ref())
+                ));
+            }
+            if liveness && p.k0.contains(k) && !is_merge {
+                return Err(format!(
+                    "{}: no progress: after {} rounds (depth {}, max_keys_per_sync {}, bound = ceil(keys/limit)+2) replica {} still does not hold the merge for key {:?} of an initially divergent bucket:\n  now:   {}\n  merge: {}",
+                    how, p.rounds, depth, limit, side, k, pv(now), pv(want.as_ref())
+                ));
+            }
+        }
+        if pv(a.get(k)) != pv(b.get(k)) {
+            all_equal = false;
+            if liveness && p.k0.contains(k) {
+                // both hold "the merge" up to the C07 findings (checked above); what may remain
+                // is exactly the stamp asymmetry of KF-C07-01
+                match (a.get(k), b.get(k)) {
+                    (Some(x), Some(y)) if same_up_to_c07(x, y, mixed, ctx, tol).is_none() => {
+                        ctx.label("converged_up_to_stamp_replica");
+                    }
+                    _ => {
+                        return Err(format!(
+                            "{}: replicas did not converge on key {:?}:\n  A: {}\n  B: {}",
+                            how, k, pv(a.get(k)), pv(b.get(k))
+                        ))
+                    }
+                }
+            }
+        }
+    }
+    if all_equal {
+        ctx.label("fully_converged");
+        // equal states: digests must be equal
+        let (da, db) = (digest_of(a, 10, depth), digest_of(b, 11, depth));
+        check_equal_content_digests(
+            &format!("{}: after sync, equal states", how),
+            a,
+            &da,
+            &db,
+            depth,
+            ctx,
+            tol,
+        )?;
+    }
+    Ok(())
+}
+
+fn sync_direct(
+    a: &mut ShardReplicaState,
+    b: &mut ShardReplicaState,
+    depth: usize,
+    limit: usize,
+    rounds: usize,
+) -> Result<(), String> {
+    let cfg = AntiEntropyConfig {
+        merkle_tree_depth: depth,
+        max_keys_per_sync: limit,
+        ..AntiEntropyConfig::default()
+    };
+    let (ra, rb) = (a.replica_id, b.replica_id);
+    let mut ma = AntiEntropyManager::new(ra, cfg.clone());
+    let mut mb = AntiEntropyManager::new(rb, cfg);
+    for round in 0..rounds {
+        let da = ma.generate_digest(&a.replicated_keys);
+        let db = mb.generate_digest(&b.replicated_keys);
+        let buckets = match ma.process_peer_digest(db, &da) {
+            None => continue, // digests agree: nothing to do this round
+            Some(v) => v,
+        };
+        let req = ma.create_sync_request(rb, da, Some(buckets.clone()), round as u64 * 1000);
+        let resp = mb.handle_sync_request(req, &b.replicated_keys);
+        if resp.deltas.len() > limit {
+            return Err(format!(
+                "handle_sync_request returned {} deltas with max_keys_per_sync = {}",
+                resp.deltas.len(),
+                limit
+            ));
+        }
+        for d in &resp.deltas {
+            let bk = bucket_of(&d.key, &d.value, depth);
+            if !buckets.contains(&bk) {
+                return Err(format!(
+                    "handle_sync_request sent key {:?} of bucket {} which was not requested ({:?})",
+                    d.key, bk, buckets
+                ));
+            }
+        }
+        // the requester pushes its own keys of the same buckets (as run_anti_entropy_sync does)
+        let push = ma.get_keys_in_buckets(&a.replicated_keys, &buckets);
+        if push.len() > limit {
+            return Err(format!(
+                "get_keys_in_buckets returned {} deltas with max_keys_per_sync = {}",
+                push.len(),
+                limit
+            ));
+        }
+        for d in resp.deltas {
+            a.apply_remote_delta(d);
+        }
+        for d in push {
+            b.apply_remote_delta(d);
+        }
+    }
+    Ok(())
+}
+
+fn sync_sim(a0: &Map, b0: &Map, depth: usize, limit: usize, rounds: usize) -> (Map, Map) {
+    let mut sim = MultiNodeSimulation::new(2, 1);
+    for (node, m) in [(0usize, a0), (1usize, b0)] {
+        sim.nodes[node].anti_entropy.config.merkle_tree_depth = depth;
+        sim.nodes[node].anti_entropy.config.max_keys_per_sync = limit;
+        let mut keys: Vec<&String> = m.keys().collect();
+        keys.sort();
+        for k in keys {
+            // a fresh replica stores a received value as it is
+            sim.nodes[node].replica_state.apply_remote_delta(ReplicationDelta::new(
+                k.clone(),
+                m[k].clone(),
+                ReplicaId::new(9),
+            ));
+        }
+    }
+    for _ in 0..rounds {
+        sim.run_anti_entropy_sync(0, 1);
+    }
+    (
+        sim.nodes[0].replica_state.replicated_keys.clone(),
+        sim.nodes[1].replica_state.replicated_keys.clone(),
+    )
+}
+
+/// The code under test iterates `RandomState` maps (which buckets are falsely reported divergent,
+/// which keys a limited round carries), so a failure that needs a particular order may not show
+/// on every evaluation: each case is evaluated `reps` times on freshly built replicas (2 during
+/// search, 32 on replay) and fails if any evaluation fails.
+fn check_sync_reps(case: &Case, via_sim: bool, reps: usize, ctx: &mut CaseCtx<'_>) -> Result<(), String> {
+    let mut tol = Tol::default();
+    for _ in 0..reps {
+        check_sync_case(case, via_sim, ctx, &mut tol)?;
+    }
+    Ok(())
+}
+
+fn check_sync_case(
+    case: &Case,
+    via_sim: bool,
+    ctx: &mut CaseCtx<'_>,
+    tol: &mut Tol,
+) -> Result<(), String> {
+    let built = build(case);
+    let depth = DEPTHS[case.depth as usize % DEPTHS.len()];
+    let limit = LIMITS[case.limit as usize % LIMITS.len()];
+    ctx.label(&format!("depth:{}", depth));
+    ctx.label(&format!("limit:{}", limit));
+    let (a0, b0) = (built.a.replicated_keys.clone(), built.b.replicated_keys.clone());
+    let fold_open = ctx.finding_open(KF_FOLD);
+    let p = plan(&a0, &b0, depth, limit, fold_open);
+    if p.k0.is_empty() {
+        ctx.label("nothing_divergent");
+    }
+    // liveness is claimed for every case; while KF-C18-03 is open the class "a side holds more
+    // keys in the divergent buckets than one round carries" is excluded (and counted)
+    let liveness = if p.k0.is_empty() {
+        true // nothing is claimed to move
+    } else if p.over_limit {
+        ctx.label("divergent_more_keys_than_limit");
+        !tol.tolerate(ctx, KF_STUCK)
+    } else {
+        ctx.label("divergent_within_limit_liveness_asserted");
+        true
+    };
+    let how = if via_sim { "run_anti_entropy_sync" } else { "manager-driven sync" };
+    let (a, b) = if via_sim {
+        sync_sim(&a0, &b0, depth, limit, p.rounds)
+    } else {
+        let (mut sa, mut sb) = (built.a, built.b);
+        sync_direct(&mut sa, &mut sb, depth, limit, p.rounds)?;
+        (sa.replicated_keys, sb.replicated_keys)
+    };
+    ctx.add_evaluations(p.rounds as u64);
+    check_after_sync(how, &a0, &b0, &a, &b, &p, liveness, depth, limit, ctx, tol)?;
+    let shared = ideal(&a0, depth).iter().any(|v| v.len() >= 2)
+        || ideal(&b0, depth).iter().any(|v| v.len() >= 2);
+    if !p.k0.is_empty() && (shared || built.permuted) {
+        ctx.nontrivial(&(depth, limit, state_fp(&a0), state_fp(&b0)));
+    }
+    Ok(())
+}
+
+// ---------------------------------------------------------------------------------------
+// generators
+// ---------------------------------------------------------------------------------------
+
+fn wop() -> impl Strategy<Value = WOp> {
+    // most keys have one preferred writer (key % 3), so that equal stamps' replica ids agree
+    // on both followers in many cases (KF-C07-01 would otherwise dominate)
+    let writer = |key: u8, sel: u8| if sel < 6 { key % 3 } else { sel % 3 };
+    prop_oneof![
+        6 => (0u8..14, 0u8..8, 0u8..4, 0u8..3)
+            .prop_map(move |(key, sel, p, exp)| WOp::Write { w: writer(key, sel), key, p, exp }),
+        2 => (0u8..14, 0u8..8).prop_map(move |(key, sel)| WOp::Delete { w: writer(key, sel), key }),
+        4 => (0u8..14, 0u8..8, 0u8..3, 0u8..4)
+            .prop_map(move |(key, sel, f, p)| WOp::HSet { w: writer(key, sel), key, f, p }),
+        1 => (0u8..14, 0u8..8, 0u8..3)
+            .prop_map(move |(key, sel, f)| WOp::HDel { w: writer(key, sel), key, f }),
+        3 => (0u8..6, 0u8..8, 0u8..3, any::<bool>())
+            .prop_map(move |(key, sel, act, stamp)| WOp::Crdt { w: writer(key, sel), key, act, stamp }),
+        3 => (0u8..3, 0u8..3, 0u8..NKEYS).prop_map(|(to, from, key)| WOp::Gossip { to, from, key }),
+    ]
+}
+
+fn case_strategy(sync: bool) -> impl Strategy<Value = Case> {
+    let idx = || proptest::collection::vec(any::<u16>(), 0..40);
+    // digest pairs: 40 % same deliveries, 30 % one extra, 30 % independent; sync: mostly unequal
+    let (w_same, w_one, w_many) = if sync { (1, 3, 8) } else { (4, 3, 3) };
+    let extras = prop_oneof![
+        w_same => Just((Vec::<u16>::new(), Vec::<u16>::new())),
+        w_one => any::<u16>().prop_map(|x| (Vec::new(), vec![x])),
+        w_many => (
+            proptest::collection::vec(any::<u16>(), 0..20),
+            proptest::collection::vec(any::<u16>(), 0..20)
+        ),
+    ];
+    (
+        proptest::collection::vec(wop(), 1..48),
+        idx(),
+        proptest::collection::vec(any::<u16>(), 0..40),
+        extras,
+        0u8..5,
+        0u8..4,
+    )
+        .prop_map(move |(world, base, perm, (extra_a, extra_b), depth, limit)| Case {
+            world,
+            base,
+            perm,
+            extra_a,
+            extra_b,
+            depth,
+            limit: if sync { limit } else { 3 },
+        })
+}
+
+// ---------------------------------------------------------------------------------------
+// probes (deterministic reproducers)
+// ---------------------------------------------------------------------------------------
+
+fn lww(s: &str, t: u64, r: u64) -> ReplicatedValue {
+    // what a follower stores after receiving `record_write` deltas: built through the real API
+    let mut st = ShardReplicaState::new(ReplicaId::new(r), ConsistencyLevel::Eventual);
+    let mut last = None;
+    for _ in 0..t {
+        last = Some(st.record_write("p".to_string(), SDS::from_str(s), None));
+    }
+    last.expect("t >= 1").value
+}
+
+fn probe_fold() -> Option<String> {
+    // two keys, one bucket (depth 0), 64 independently built maps
+    let mut content: Map = HashMap::new();
+    content.insert("k1".into(), lww("x", 1, 1));
+    content.insert("k2".into(), lww("y", 2, 1));
+    let maps = copies(&content, 64);
+    let ds: Vec<StateDigest> = maps.iter().map(|m| digest_of(m, 1, 0)).collect();
+    let distinct: BTreeSet<u64> = ds.iter().map(|d| d.root_hash).collect();
+    if distinct.len() > 1 {
+        let j = ds.iter().position(|d| d.root_hash != ds[0].root_hash).unwrap();
+        Some(format!(
+            "64 maps holding the same two keys (one bucket) give {} different root hashes; differs_from(map0, map{}) = {}, divergent_buckets = {:?}",
+            distinct.len(),
+            j,
+            ds[0].differs_from(&ds[j]),
+            ds[0].divergent_buckets(&ds[j])
+        ))
+    } else {
+        None
+    }
+}
+
+fn probe_blind(s: &Session) -> Option<String> {
+    // r1: HSET k f x ; r2: HSET k g y ; A holds r1's value, B holds r1's value merged with r2's
+    let case = Case {
+        world: vec![
+            WOp::HSet { w: 0, key: 0, f: 0, p: 0 },
+            WOp::HSet { w: 1, key: 0, f: 1, p: 1 },
+        ],
+        base: vec![0],
+        perm: vec![],
+        extra_a: vec![],
+        extra_b: vec![40000],
+        depth: 4,
+        limit: 3,
+    };
+    s.strict_eval(|ctx| check_digest_case(&case, ctx)).err()
+}
+
+fn probe_stuck() -> Option<String> {
+    // A holds three keys of one bucket (depth 0), B nothing; B pulls with max_keys_per_sync = 1.
+    // Pull only: A's map is never touched, so the verdict does not depend on iteration order.
+    let mut a = follower(10);
+    for (i, k) in ["k1", "k2", "k3"].iter().enumerate() {
+        a.apply_remote_delta(ReplicationDelta::new(
+            k.to_string(),
+            lww("v", i as u64 + 1, 1),
+            ReplicaId::new(1),
+        ));
+    }
+    let mut b = follower(11);
+    let cfg = AntiEntropyConfig {
+        merkle_tree_depth: 0,
+        max_keys_per_sync: 1,
+        ..AntiEntropyConfig::default()
+    };
+    let mut ma = AntiEntropyManager::new(a.replica_id, cfg.clone());
+    let mut mb = AntiEntropyManager::new(b.replica_id, cfg);
+    let rounds = 3 + 2;
+    let mut sent: Vec<String> = Vec::new();
+    for round in 0..rounds {
+        let da = ma.generate_digest(&a.replicated_keys);
+        let db = mb.generate_digest(&b.replicated_keys);
+        let Some(buckets) = mb.process_peer_digest(da, &db) else {
+            break;
+        };
+        let req = mb.create_sync_request(a.replica_id, db, Some(buckets), round as u64);
+        let resp = ma.handle_sync_request(req, &a.replicated_keys);
+        for d in resp.deltas {
+            sent.push(d.key.clone());
+            b.apply_remote_delta(d);
+        }
+    }
+    if b.replicated_keys.len() < 3 {
+        Some(format!(
+            "after {} pull rounds (3 keys in the divergent bucket, max_keys_per_sync 1, bound ceil(3/1)+2) the puller holds {} of 3 keys; keys sent per round: {:?}",
+            rounds,
+            b.replicated_keys.len(),
+            sent
+        ))
+    } else {
+        None
+    }
+}
+
 fn main() {
-    eprintln!("not built yet");
-    std::process::exit(2);
+    let args = vcore::parse_args();
+    let s = Session::new(
+        "C18",
+        Level::Exploration,
+        "a case is one consistent world (<= 47 ops of 3 writers over 20 keys: strings, tombstones, hashes, expiries, G-counters, OR-sets, \
+         writer gossip) whose deltas are delivered to two followers A and B: a common list in two different orders plus none / one / several \
+         extra deliveries per side; merkle_tree_depth in {0,1,2,4,8}, max_keys_per_sync in {1,2,5,1000}. digest_pairs compares 6 independently \
+         built maps per side; sync_* run ceil(keys/limit)+2 rounds. non-trivial = >= 2 keys share a bucket, or the followers received the \
+         common deliveries in different orders (sync: and some bucket is divergent); distinct by (depth, limit, peer views of both states)",
+        &args,
+    );
+    s.assume("digest divergence is judged by the harness from sorted KeyDigest lists per bucket (order independent); 64-bit hash collisions are ignored");
+    s.assume("followers only apply remote deltas; writers are ShardReplicaState instances driven through record_* and apply_remote_delta; counters/OR-sets through with_crdt + crdt_mut()");
+    s.assume("the code under test iterates std HashMaps with per-map RandomState: which keys a limited round carries differs between processes, so liveness is asserted only where it does not depend on that order (all keys of the divergent buckets fit into one round, or the finding about it is closed)");
+    s.assume("a 'client-visible difference' is a different vcore::proj::client_view body, or a different expiry on a value that has a body");
+
+    s.probe(KF_FOLD, json!({"keys": {"k1": "x@(1,r1)", "k2": "y@(2,r1)"}, "depth": 0, "maps": 64}), probe_fold);
+    s.probe(
+        KF_BLIND,
+        json!({"world": ["r1: HSET k0 f x", "r2: HSET k0 g y"], "A": "r1's value", "B": "r1's value merged with r2's (same outer stamp (1,r1), fields f and g)"}),
+        || probe_blind(&s),
+    );
+    s.probe(
+        KF_STUCK,
+        json!({"A": ["k1", "k2", "k3"], "B": [], "depth": 0, "max_keys_per_sync": 1, "rounds": 5}),
+        probe_stuck,
+    );
+
+    s.describe_check(
+        "digest_pairs",
+        "equal content => equal digests on independently built maps; different key digests in a bucket => that bucket and the root differ; a client-visible difference must show in the key digest",
+    );
+    let dreps = if s.is_replay() { 8 } else { 1 };
+    s.run_cases("digest_pairs", s.scale(40_000, 1_000_000), || case_strategy(false), |c, ctx| {
+        for _ in 0..dreps {
+            check_digest_case(c, ctx)?;
+        }
+        Ok(())
+    });
+
+    s.describe_check(
+        "sync_direct",
+        "process_peer_digest / create_sync_request / handle_sync_request / get_keys_in_buckets driven by hand for ceil(keys/limit)+2 rounds: safety for every key, convergence of the initially divergent buckets, equal digests once the states are equal",
+    );
+    let reps = if s.is_replay() { 32 } else { 2 };
+    s.run_cases("sync_direct", s.scale(30_000, 600_000), || case_strategy(true), |c, ctx| {
+        check_sync_reps(c, false, reps, ctx)
+    });
+
+    s.describe_check(
+        "sync_sim",
+        "the same through MultiNodeSimulation::run_anti_entropy_sync on two simulated nodes",
+    );
+    s.run_cases("sync_sim", s.scale(20_000, 400_000), || case_strategy(true), |c, ctx| {
+        check_sync_reps(c, true, reps, ctx)
+    });
+
+    s.finish();
 }
